@@ -1,10 +1,61 @@
 import BoboVerif.Drivers.Util
-/- driver stub for the Locks model (to be replaced by the real line protocol). -/
+import BoboVerif.Model.Locks
+import BoboVerif.Gen.Locks
+/-
+driver for M-Locks (C08): checks a lock-acquisition table given as lines with the
+same `checkAcqs` / `rankOf` the theorems are about.
+
+  reset                 forget the table                           -> ok
+  gen                   load the table generated from /repo        -> ok <entries> gate <id>
+  gate <id>             set the gate class                         -> ok
+  acq <H> <x>           add entry (H = `-` or `1,2,3`)             -> ok
+  member <H> <x>        is (H as a set, x) an entry of the table?  -> yes | no
+  check                 run the checker                            -> ranked | unranked <H>x ; <H>x …
+  rank <id>             computed rank of a class                   -> <n>
+-/
 namespace Bobo.Drv.Locks
+open Bobo.Locks
 
 structure DS where
-  dummy : Unit := ()
+  gate : Nat := 0
+  es   : List Entry := []
 
-def step (d : DS) (_line : String) : DS × String := (d, "unimplemented")
+def parseSet (s : String) : Option (List Nat) :=
+  if s = "-" then some []
+  else (s.splitOn ",").foldr (fun w acc => match acc, parseNat? w with
+    | some l, some n => some (n :: l)
+    | _, _ => none) (some [])
+
+def sameSet (a b : List Nat) : Bool := a.all (b.contains ·) && b.all (a.contains ·)
+
+def showEntry (e : Entry) : String :=
+  (if e.1.isEmpty then "-" else ",".intercalate (e.1.map toString)) ++ ">" ++ toString e.2
+
+def step (d : DS) (line : String) : DS × String :=
+  match words line with
+  | ["reset"] => ({}, "ok")
+  | ["gen"] =>
+    ({ gate := Bobo.Gen.Locks.gate, es := Bobo.Gen.Locks.acqs },
+     "ok " ++ toString Bobo.Gen.Locks.acqs.length ++ " gate " ++ toString Bobo.Gen.Locks.gate)
+  | ["gate", g] =>
+    match parseNat? g with
+    | some n => ({ d with gate := n }, "ok")
+    | none => (d, "bad-op")
+  | ["acq", h, x] =>
+    match parseSet h, parseNat? x with
+    | some hs, some n => ({ d with es := d.es ++ [(hs, n)] }, "ok")
+    | _, _ => (d, "bad-op")
+  | ["member", h, x] =>
+    match parseSet h, parseNat? x with
+    | some hs, some n => (d, if d.es.any (fun e => e.2 == n && sameSet e.1 hs) then "yes" else "no")
+    | _, _ => (d, "bad-op")
+  | ["check"] =>
+    if checkAcqs (rankOf d.gate d.es) d.gate d.es then (d, "ranked")
+    else (d, "unranked " ++ " ; ".intercalate ((offending d.gate d.es).map showEntry))
+  | ["rank", x] =>
+    match parseNat? x with
+    | some n => (d, toString (rankOf d.gate d.es n))
+    | none => (d, "bad-op")
+  | _ => (d, "bad-op")
 
 end Bobo.Drv.Locks
